@@ -84,3 +84,33 @@ func VH_c09_filterpath() {
 	}
 	vReach("end")
 }
+
+// C09 (inbound loop): a received route is not used when the local AS (or the confederation
+// identifier) occurs in its AS_PATH more often than allow-own-as permits, counted over the whole
+// path - decided by the real hasOwnASLoop and by the real peer.handleUpdate.
+func VH_c09_own_as_loop() {
+	const local, confed = 65100, 65200
+	allow := vInt("allow_own_as", 0, 2)
+	confedOn := vBool("confederation")
+	as := []uint32{vU32("as"), vU32("as"), vU32("as"), vU32("as")}
+	segs := []bgp.AsPathParamInterface{bgp.NewAs4PathParam(bgp.BGP_ASPATH_ATTR_TYPE_SEQ, as[:2])}
+	if vBool("second_segment_is_set") {
+		segs = append(segs, bgp.NewAs4PathParam(bgp.BGP_ASPATH_ATTR_TYPE_SET, as[2:]))
+	} else {
+		segs = append(segs, bgp.NewAs4PathParam(bgp.BGP_ASPATH_ATTR_TYPE_SEQ, as[2:]))
+	}
+	cnt := 0
+	for _, a := range as {
+		if a == local || confedOn && a == confed {
+			cnt++
+		}
+	}
+	want := cnt > allow
+	got := hasOwnASLoop(local, allow, bgp.NewPathAttributeAsPath(segs), confed, confedOn)
+	vAssert(got == want, "the own-AS loop test does not count the occurrences of the local AS over the whole AS_PATH against allow-own-as")
+	if want {
+		vReach("loop")
+	} else {
+		vReach("clean")
+	}
+}
